@@ -11,7 +11,7 @@ LEVEL = "model_checking"
 
 
 def describe_rt(e):
-    keys = ("backend", "shape", "mt", "zipErr", "unzipErr", "unzipLimitsErr", "zipViewErr", "tarViewErr", "zipViewProblems", "tarViewProblems", "listOut", "handles")
+    keys = ("backend", "shape", "mt", "prior", "zipErr", "unzipErr", "unzipLimitsErr", "zipViewErr", "tarViewErr", "zipViewProblems", "tarViewProblems", "listOut", "handles")
     d = {k: e.get(k) for k in keys if e.get(k) not in ("", [], 0, None)}
     src, ext = set(e.get("srcC", [])), set(e.get("extC", []))
     d["source"] = sorted(src)[:8]
@@ -47,6 +47,11 @@ def run(chk, scratch):
     chk.add_tlc("ArchiveRoundTrip without directory entries (must violate RoundTrip)", r2)
     if r2.violated != "RoundTrip":
         raise vlib.Inconclusive("sensitivity self-test failed: ArchiveRoundTrip_nodirs.cfg reported %s" % r2.violated)
+    r2b = vlib.run_tlc(scratch, [SPEC], "ArchiveRoundTrip", "ArchiveRoundTrip_inplace.cfg", workers=2, timeout=300, fast=True)
+    vlib.tlc_must_pass(r2b, "ArchiveRoundTrip_inplace")
+    chk.add_tlc("ArchiveRoundTrip with the destination overwritten in place (must violate RoundTrip)", r2b)
+    if r2b.violated != "RoundTrip":
+        raise vlib.Inconclusive("sensitivity self-test failed: ArchiveRoundTrip_inplace.cfg reported %s" % r2b.violated)
     scen = r.behaviours
     chk.cov["model_scenarios"] = len(scen)
     rnd = random.Random(chk.seed)
@@ -54,6 +59,7 @@ def run(chk, scratch):
         big = [s for s in scen if any(n["size"] > 100000 for n in s["nodes"])]
         small = [s for s in scen if not any(n["size"] > 100000 for n in s["nodes"])]
         scen = rnd.sample(big, 40) + rnd.sample(small, 360)
+        scen += rnd.sample([s for s in small if s["prior"] == "longer"], 12) + rnd.sample([s for s in small if s["prior"] == "empty"], 6)
     else:
         scen = rnd.sample(scen, min(len(scen), 4000))
     chk.sample({"scenario": scen[0]})
@@ -68,6 +74,7 @@ def run(chk, scratch):
         if str(e.get("tarViewErr", "")).startswith("harness:"):
             raise vlib.Inconclusive("the harness could not write the tar archive: " + e["tarViewErr"])
     chk.nontrivial += sum(1 for e in ev if e.get("srcC"))
+    chk.cov["round_trips_onto_an_existing_destination"] = sum(1 for e in ev if e.get("prior") in ("empty", "longer"))
     # 2. larger seeded trees
     tr2, _ = common.record(vh, scratch, "c07", "c07-fuzz.ndjson", chk.seed, chk.tier, mode="fuzz", n=(300 if thorough else 25), timeout=3000)
     ev2 = judge(chk, scratch, tr2, "round trips of seeded trees", spec="ArchiveTrace", describe=describe_rt, spec_dir=SPEC)
@@ -93,7 +100,7 @@ def run(chk, scratch):
     chk.sample({"close_step": {k: ev3[2][k] for k in ("view", "step", "class", "changed")}})
     chk.cov["rule"] = ("tree = shape (empty, one file, one empty directory, nested, deep with empty leaves, flat) x three name classes out of 11 (plain, dot file, 'a..b', space, unicode, shell meta, "
                        "200 characters, trailing dot, newline, leading dash, archive extension) x size of the main file {0,1,4096,32767,32768,32769,3000001} x time class (even/odd second, "
-                       "sub-second, 1990); each on the OS filesystem and MemMapFs: Zip, Unzip, Unzip with limits, zip view, tar view (tar written by the harness with archive/tar); seeded trees up to "
+                       "sub-second, 1990) x state of the destination path (absent, empty file, an older and longer archive); each on the OS filesystem and MemMapFs: Zip, Unzip, Unzip with limits, zip view, tar view (tar written by the harness with archive/tar); seeded trees up to "
                        "200 entries, depth <= 6, random names; every program of <= 4 steps over {read, mutate, close} on both views, each step expanded to every concrete method of its class "
                        "(methods.go: 35 reading and 47 mutating calls)")
     chk.assumptions += ["archive precision = 1 s (extended time stamp field written by archive/zip)",
